@@ -1,4 +1,4 @@
-//! Witness searcher for the ParserState properties (C03 combinators, C04 emission, C08, C15): enumerates small programs
+//! Witness searcher for the ParserState properties (C03 combinators, C04 emission, C08, C12, C15): enumerates small programs
 //! built from the public ParserState operations, runs them on the real crate and compares with a direct executable
 //! reading of the documented semantics (a 60-line reference interpreter). Used only after a failed or undecided
 //! deductive step, to attach a concrete failing program + input.
@@ -132,7 +132,34 @@ fn check(e: &E, input: &str, mode: &str) -> Result<(), String> {
         pest::set_error_detail(false);
         match got2 { Err(p) => return Err(format!("with error detail on: {}", p)), Ok(g2) => if g2 != got { return Err(format!("error detail on gives {:?}, off gives {:?}", g2, got)); } }
     }
+    if (mode == "C12" || mode == "all") && limit_safe(e) {
+        // C12: under every call limit the parse gives the unlimited result or the limit error, and once it completes it keeps
+        // completing. Programs in which optional / repeat / negative look-ahead / choice enclose a counted call are left out:
+        // there the unchanged tree absorbs a refusal (known findings F4a-c).
+        let mut completed = false;
+        for limit in 1..=16usize {
+            pest::set_call_limit(std::num::NonZeroUsize::new(limit));
+            let g = real(e, input);
+            pest::set_call_limit(None);
+            let g = g.map_err(|p| format!("with call limit {}: {}", limit, p))?;
+            let refused = matches!(&g, Out::Other(m) if m.contains("call limit reached"));
+            if g == got { completed = true; }
+            else if !refused { return Err(format!("call limit {} gives {:?}, no limit gives {:?}", limit, g, got)); }
+            else if completed { return Err(format!("call limit {} refuses although a smaller limit completed with the unlimited result", limit)); }
+        }
+        if !completed { return Err("no call limit up to 16 completes".into()); }
+    }
     Ok(())
+}
+fn is_leaf(e: &E) -> bool { matches!(e, E::Str(_) | E::Peek | E::Pop | E::Drop | E::Skip(_) | E::Eoi) }
+fn limit_safe(e: &E) -> bool {
+    match e {
+        E::Opt(a) | E::Rep(a) | E::Neg(a) => is_leaf(a),
+        E::Alt(a, b) => is_leaf(a) && limit_safe(b),
+        E::Seq(a, b) => limit_safe(a) && limit_safe(b),
+        E::Pos(a) | E::Rule(_, a) | E::RuleA(_, a) | E::RuleC(_, a) | E::Atomic(a) | E::Compound(a) | E::NonAtomic(a) | E::Push(a) | E::Restore(a) => limit_safe(a),
+        _ => true,
+    }
 }
 
 fn leaves() -> Vec<E> { vec![E::Str("a"), E::Str("b"), E::Str("é"), E::Peek, E::Pop, E::Eoi, E::Drop, E::Skip(2)] }
